@@ -301,6 +301,22 @@ func TestC18(t *testing.T) {
 			c := C18Case{Now: now, ArchiveID: -1}
 			c.Spec = FileSpec{L: l, Writes: genWrites(t, l, now, valPrintable, 8)}
 			c.From, c.Until = genCLIWindow(t, l, now)
+			if rapid.IntRange(0, 24).Draw(t, "bigArchive") == 0 {
+				// an archive of thousands of slots (bulk reads), partly filled from the newest end
+				big := Layout{Archives: []Arch{{Step: l.Archives[0].Step, Points: rapid.Int64Range(4200, 9000).Draw(t, "bigPoints")}}, Method: l.Method, XFF: l.XFF}
+				c.Spec = FileSpec{L: big, Fill: rapid.Int64Range(1, big.Archives[0].Points).Draw(t, "bigFill"), FillBase: 0.5}
+				c.Now = genNowRealistic(t, big)
+				c.From, c.Until = genCLIWindow(t, big, c.Now)
+				c.ArchiveID = -1
+				l = big
+			}
+			if rapid.IntRange(0, 9).Draw(t, "farUntil") == 0 {
+				// range bounds decades away from the data (the text syntax allows any 32-bit instant)
+				c.Until = rapid.SampledFrom([]int64{1 << 31, 1<<31 + 5, 4102444800, 1<<32 - 1, 3000000000}).Draw(t, "farUntilValue")
+				if rapid.Bool().Draw(t, "from0") {
+					c.From = 0
+				}
+			}
 			if rapid.IntRange(0, 2).Draw(t, "oneArchive") == 0 {
 				c.ArchiveID = rapid.IntRange(0, len(l.Archives)-1).Draw(t, "archive")
 			}
